@@ -33,7 +33,7 @@ META = {
         "negative numeric literals are outside the documented grammar and are not generated",
     ],
     "must_observe": ["fired", "blocked", "readorder_compared", "invalid_rejected", "shortcircuit_cases"],
-    "shard_timeout": {"quick": 600, "thorough": 3000},
+    "shard_timeout": {"quick": 900, "thorough": 3000},
     "max_samples": 6,
 }
 
